@@ -801,7 +801,10 @@ func r205(c *fw.Ctx) {
 		}
 	}
 	// configuration fields written only by setters/constructors
-	for _, spec := range []struct{ rel, typ, field string; writers []string }{
+	for _, spec := range []struct {
+		rel, typ, field string
+		writers         []string
+	}{
 		{cachePkg, "Impl", "tags", []string{"SetTags"}},
 		{cachePkg, "Impl", "h", []string{"New"}},
 		{"packages", "Importer", "cache", []string{"SetCache"}},
